@@ -63,7 +63,7 @@ class Engine(object):
             if attr == 'S0' and base.ty == 'kripke':
                 return SV('set', h.field('S0', base.t))
             return SV('bound', None, (base, attr))
-        if base.ty in ('set', 'list', 'dict', 'fdict', 'keys', 'pairlist', 'str', 'coll', 'reflist', 'clist'):
+        if base.ty in ('set', 'list', 'dlist', 'dict', 'fdict', 'keys', 'pairlist', 'str', 'coll', 'reflist', 'clist'):
             return SV('bound', None, (base, attr))
         if base.ty == 'super':
             return SV('bound', None, (base, attr))
@@ -255,15 +255,20 @@ class Engine(object):
             a = args[0]
             n = hp.fresh('len', I)
             path.pc.append(n >= 0)
-            if a.ty in ('set', 'list'):
+            if a.ty in ('set', 'list', 'dlist'):
                 x = hp.fresh('x!l', H)
-                path.pc.append((n > 0) == hp.nonempty(h.set_of(a.t)))
+                S = h.set_of(a.t)
+                path.pc.append((n > 0) == hp.nonempty(S))
                 # len == 1 means a singleton
                 y = hp.fresh('y!l', H)
-                path.pc.append(z3.Implies(n == 1, z3.ForAll([x, y], z3.Implies(z3.And(h.set_of(a.t)[x], h.set_of(a.t)[y]), x == y)))
-                               if a.ty == 'set' else z3.BoolVal(True))
-                if a.ty == 'set':
-                    path.pc.append(z3.Implies(z3.Exists([x, y], z3.And(h.set_of(a.t)[x], h.set_of(a.t)[y], x != y)), n > 1))
+                path.pc.append(z3.Implies(n == 1, z3.ForAll([x, y], z3.Implies(z3.And(S[x], S[y]), x == y)))
+                               if a.ty in ('set', 'dlist') else z3.BoolVal(True))
+                if a.ty in ('set', 'dlist'):
+                    path.pc.append(z3.Implies(z3.Exists([x, y], z3.And(S[x], S[y], x != y)), n > 1))
+                    # without repetitions, more than one position means two different elements
+                    e1, e2 = hp.fresh('el1', H), hp.fresh('el2', H)
+                    path.pc.append(z3.Implies(n > 1, z3.And(S[e1], S[e2], e1 != e2)))
+                    path.ghosts['len_witnesses'] = (e1, e2)
                 return SV('int', n)
             if a.ty == 'clist':
                 return SV('int', z3.IntVal(len(a.x)))
@@ -501,7 +506,9 @@ class Engine(object):
             p2 = path.fork(cond)
             path.exc.append((exc, p2, line))
         for cond in conds:
-            path.pc.append(z3.Not(cond))
+            nf = z3.Not(cond)
+            path.pc.append(nf)
+            ex.noraise_ids.add(nf.get_id())
         # normal exit: fresh post state constrained by the postcondition
         # (a pure callee - no write to, and no allocation of, anything the caller can reach - keeps the heap)
         if k.pure:
@@ -521,7 +528,7 @@ class Engine(object):
                 res = SV('coll', None, Coll('pair', c.yP, True))
             elif k.generator == 'ref':
                 c.yR = hp.fresh('gen', hp.SetR)
-                res = SV('coll', None, Coll('ref', c.yR, True, elem_ty='list'))
+                res = SV('coll', None, Coll('ref', c.yR, True, elem_ty=k.hints.get('yield_ty', 'list')))
         elif k.ret is not None and k.ret != 'none':
             res = ex.fresh_of(k.ret, h1, 'res')
         else:
@@ -593,6 +600,8 @@ class Engine(object):
             pc.append(f)
             if name == 'documented_semantics':
                 ex.heavy_ids.add(f.get_id())
+            if name in k.hints.get('schemas', ()):
+                ex.schema_ids.add(f.get_id())
             if name in k.hints.get('heavy_requires', ()):
                 ex.heavy2_ids.add(f.get_id())
         env = dict(args)
@@ -673,7 +682,8 @@ class Engine(object):
         t0 = time.time()
         if o.alt_assumptions is not None:
             s3 = z3.Solver()
-            s3.set('timeout', (timeout_ms or self.timeout_ms) // 2)
+            # (short: where the cut lemmas suffice the query is tiny; the full budget comes later)
+            s3.set('timeout', max(2000, (timeout_ms or self.timeout_ms) // 8))
             for a in o.alt_assumptions:
                 s3.add(a)
             s3.add(z3.Not(o.goal))
